@@ -134,6 +134,11 @@ class SymExec:
                 star = not (isinstance(n.func, ast.Name) and n.func.id == 'map')
                 it = simplify(self.subst(n.args[1], env))
                 f_ = self.subst(n.args[0], env)
+                if isinstance(it, ast.Call) and isinstance(it.func, ast.Name) and it.func.id in ELEMENTWISE and it.args and \
+                   isinstance(it.args[0], (ast.Tuple, ast.List)) and not any(isinstance(x, ast.Starred) for x in it.args[0].elts):
+                    # an element-wise formatter over a literal: one result per literal entry
+                    it = ast.Tuple(elts=[ast.Subscript(value=it, slice=ast.Constant(value=i_), ctx=ast.Load())
+                                         for i_ in range(len(it.args[0].elts))], ctx=ast.Load())
 
                 def app(x):
                     arg = ast.Starred(value=x, ctx=ast.Load()) if star else x
@@ -1547,6 +1552,22 @@ def _stdlib_algebra(n):
                             args=list(f.args[1:]), keywords=list(f.keywords))
         if nm == 'partial' and f.args:
             return ast.Call(func=f.args[0], args=list(f.args[1:]) + list(n.args), keywords=list(f.keywords) + list(n.keywords))
+    if _last(f) == 'reduce' and (dotted(f) or '') in ('reduce', 'functools.reduce') and 2 <= len(n.args) <= 3 and not n.keywords \
+       and _is_each(n.args[1]):
+        # reduce(op, (t(x) for x in IT), init): a sum when op adds, the last term when op keeps its second argument
+        op = n.args[0]
+        adds = (dotted(op) or '') in ('operator.add', 'add', 'operator.iadd')
+        keeps_last = False
+        if isinstance(op, ast.Lambda) and len(op.args.args) == 2:
+            a_, b_ = [x.arg for x in op.args.args]
+            bt = norm(op.body)
+            adds = adds or bt in ('%s + %s' % (a_, b_), '%s + %s' % (b_, a_))
+            keeps_last = bt == b_
+        if adds:
+            tot = ast.Call(func=ast.Name(id='sum', ctx=ast.Load()), args=[n.args[1]], keywords=[])
+            return tot if len(n.args) == 2 else ast.BinOp(left=n.args[2], op=ast.Add(), right=tot)
+        if keeps_last:
+            return ast.Call(func=ast.Name(id='_last_of', ctx=ast.Load()), args=list(n.args[1:]), keywords=[])
     # f(*[a, b]) -> f(a, b): a literal sequence spread over the arguments
     if any(isinstance(a, ast.Starred) and isinstance(a.value, (ast.List, ast.Tuple)) and
            not any(isinstance(x, ast.Starred) for x in a.value.elts) for a in n.args):
@@ -1565,6 +1586,10 @@ def _stdlib_algebra(n):
        all(isinstance(a, (ast.List, ast.Tuple)) and not any(isinstance(x, ast.Starred) for x in a.elts) for a in n.args) and \
        len({len(a.elts) for a in n.args}) == 1 and len(n.args[0].elts) <= 8:
         return ast.Tuple(elts=[ast.Tuple(elts=list(r_), ctx=ast.Load()) for r_ in zip(*[a.elts for a in n.args])], ctx=ast.Load())
+    if isinstance(f, ast.Attribute) and isinstance(f.value, ast.Name) and f.value.id == 'str' and n.args and \
+       f.attr in ('rstrip', 'strip', 'lstrip', 'upper', 'lower', 'ljust', 'rjust', 'format', 'join'):
+        # str.m(x, ...) is x.m(...)
+        return ast.Call(func=ast.Attribute(value=n.args[0], attr=f.attr, ctx=ast.Load()), args=list(n.args[1:]), keywords=list(n.keywords))
     if isinstance(f, ast.Attribute) and f.attr == '__mod__' and len(n.args) == 1 and not n.keywords:
         return ast.BinOp(left=f.value, op=ast.Mod(), right=n.args[0])
     if isinstance(f, ast.Attribute) and f.attr == '__getitem__' and len(n.args) == 1 and not n.keywords:
@@ -1922,14 +1947,36 @@ def class_constants(ctx, cls):
             return all(literal(x) for x in v.elts)
         if isinstance(v, ast.UnaryOp) and isinstance(v.op, (ast.USub, ast.UAdd)):
             return literal(v.operand)
+        if isinstance(v, ast.Lambda) and not any(isinstance(x, ast.Name) and x.id in ('self', 'cls') for x in ast.walk(v.body)):
+            return True         # a table may hold small functions
+        if isinstance(v, ast.Attribute) and (dotted(v) or '').split('.')[0] in ('operator', 'np', 'math'):
+            return True
         return False
     out = {}
     body = getattr(getattr(cls, 'node', None), 'body', [])
     counts = {}
+    mod_funcs = {st.name for st in getattr(getattr(cls, 'module', None), 'tree', ast.Module(body=[], type_ignores=[])).body
+                 if isinstance(st, ast.FunctionDef)}
+
+    def constexpr(v):
+        """text constants computed in the class body: literals, + * %, sep.join([...]), module-level helpers"""
+        if literal(v):
+            return True
+        if isinstance(v, (ast.Tuple, ast.List)):
+            return all(constexpr(x) for x in v.elts)
+        if isinstance(v, ast.BinOp) and isinstance(v.op, (ast.Add, ast.Mult, ast.Mod)):
+            return constexpr(v.left) and constexpr(v.right)
+        if isinstance(v, ast.Call) and not v.keywords and all(constexpr(a) for a in v.args):
+            if isinstance(v.func, ast.Attribute) and v.func.attr in ('join', 'ljust', 'rjust', 'rstrip'):
+                return constexpr(v.func.value)
+            if isinstance(v.func, ast.Name) and v.func.id in mod_funcs:
+                return True
+        return False
     for st in body:
         if isinstance(st, ast.Assign) and len(st.targets) == 1 and isinstance(st.targets[0], ast.Name):
             counts[st.targets[0].id] = counts.get(st.targets[0].id, 0) + 1
-            if isinstance(st.value, ast.Tuple) and literal(st.value):
+            if (isinstance(st.value, ast.Tuple) and literal(st.value)) or \
+               (st.targets[0].id.startswith('_') and not isinstance(st.value, ast.Constant) and constexpr(st.value)):
                 out[st.targets[0].id] = st.value
     out = {k: v for k, v in out.items() if counts.get(k) == 1}
     if out:
